@@ -728,6 +728,118 @@ def perturb(scene, seed):
     return sc
 
 
+# ------------------------------------------------------------------ generalised-prism gallery
+GP_TEMPLATES = {   # strictly convex, counterclockwise
+    3: [(-4, -3), (4, -2), (0, 4)],
+    4: [(-4, -3), (3, -4), (4, 3), (-3, 4)],
+    5: [(-4, -2), (0, -4), (4, -1), (3, 4), (-2, 4)],
+    6: [(-4, 0), (-2, -4), (2, -4), (4, 0), (2, 4), (-2, 4)],
+}
+GP_SHAPES = ("lo_point", "lo_line", "hi_point", "hi_line", "skew", "taper", "twisted")
+
+
+def section_at(lo, hi, t):
+    return [(Fraction(a[0]) * (1 - t) + Fraction(b[0]) * t, Fraction(a[1]) * (1 - t) + Fraction(b[1]) * t)
+            for a, b in zip(lo, hi)]
+
+
+def gallery_ok(lo, hi):
+    """Documented preconditions of GenPrism for counterclockwise input, degenerate faces allowed (a face may
+    collapse to a point or to a segment; unit tests tetrahedron / odd_tetrahedron / envelope): every
+    cross-section strictly between the faces is a strictly convex counterclockwise polygon, at least one
+    face has positive area, no side is twisted by a quarter turn or more, no vertex pair coincides on both
+    faces."""
+    n = len(lo)
+    if n < 3 or len(hi) != n:
+        return False
+    area = lambda p: sum(cross(p[i], p[(i + 1) % n]) for i in range(n))
+    if area(lo) < 0 or area(hi) < 0 or (area(lo) == 0 and area(hi) == 0):
+        return False
+    for i in range(n):
+        j = (i + 1) % n
+        if lo[i] == lo[j] and hi[i] == hi[j]:
+            return False
+        el, eh = sub2(lo[j], lo[i]), sub2(hi[j], hi[i])
+        if el != (0, 0) and eh != (0, 0) and el[0] * eh[0] + el[1] * eh[1] <= 0:
+            return False
+    for t in (Fraction(1, 64), Fraction(1, 8), Fraction(1, 2), Fraction(7, 8), Fraction(63, 64)):
+        if not strictly_convex_ccw(section_at(lo, hi, t)):
+            return False
+    # corners: q(t) = cross(e_ij(t), e_jk(t)) is a quadratic; positive at the samples, check its vertex too
+    for i in range(n):
+        j, k = (i + 1) % n, (i + 2) % n
+        el, eh = sub2(lo[j], lo[i]), sub2(hi[j], hi[i])
+        fl, fh = sub2(lo[k], lo[j]), sub2(hi[k], hi[j])
+        d1, d2 = sub2(eh, el), sub2(fh, fl)
+        c0, c1, c2 = cross(el, fl), cross(el, d2) + cross(d1, fl), cross(d1, d2)
+        if c2 != 0:
+            tv = Fraction(-c1, 2 * c2)
+            if 0 < tv < 1 and c0 + c1 * tv + c2 * tv * tv <= 0:
+                return False
+    return True
+
+
+def gallery_prism(rng, shape, n):
+    """One generalised prism of the given class (counterclockwise), from an integer template."""
+    T = list(GP_TEMPLATES[n])
+    # a random symmetry of the square keeps it integer; restore the counterclockwise order after a reflection
+    m = rng.choice([((1, 0), (0, 1)), ((0, -1), (1, 0)), ((-1, 0), (0, -1)), ((0, 1), (-1, 0)),
+                    ((-1, 0), (0, 1)), ((1, 0), (0, -1)), ((0, 1), (1, 0)), ((0, -1), (-1, 0))])
+    T = [(m[0][0] * x + m[0][1] * y, m[1][0] * x + m[1][1] * y) for x, y in T]
+    if m[0][0] * m[1][1] - m[0][1] * m[1][0] < 0:
+        T = T[::-1]
+    c, d = rng.randint(-2, 2), rng.randint(-2, 2)
+    for _ in range(200):
+        if shape in ("lo_point", "hi_point"):
+            other = [(c, d)] * n
+        elif shape in ("lo_line", "hi_line"):
+            # the face collapses onto a line: squash the template along y or along x
+            other = [(x + c, d) for x, y in T] if rng.random() < 0.5 else [(c, y + d) for x, y in T]
+        elif shape == "skew":
+            other = [(x + c, y + d) for x, y in T]
+        elif shape == "taper":
+            other = [(x - (x > 0) + (x < 0), y - (y > 0) + (y < 0)) for x, y in T]
+        else:  # twisted: independent small displacements
+            other = [(x + rng.randint(-2, 2), y + rng.randint(-2, 2)) for x, y in T]
+        lo, hi = (other, T) if shape.startswith("lo_") or shape in ("twisted",) else (T, other)
+        if shape in ("skew", "taper") and rng.random() < 0.5:
+            lo, hi = hi, lo
+        if gallery_ok(lo, hi):
+            if shape != "twisted" or any(cross(sub2(lo[(i + 1) % n], lo[i]), sub2(hi[(i + 1) % n], hi[i])) != 0 for i in range(n)):
+                return lo, hi
+        c, d = rng.randint(-2, 2), rng.randint(-2, 2)
+    raise AssertionError("no valid %s prism with %d sides" % (shape, n))
+
+
+def genprism_gallery(seed, first_id, grid_n=9):
+    """EVERY run: generalised prisms whose -z / +z face degenerates to a point / to a line, skewed, tapered and
+    twisted ones, each with 3, 4, 5 and 6 sides and in BOTH vertex windings (counterclockwise, and clockwise =
+    the Geant4 G4GenericTrap convention), with a random start vertex; one per scene, half of them under a
+    signed permutation."""
+    rng = random.Random(seed * 7919 + 13)
+    scenes = []
+    for shape in GP_SHAPES:
+        for n in (3, 4, 5, 6):
+            for winding in ("ccw", "cw"):
+                sid = first_id + len(scenes)
+                g = Gen(seed * 1009 + sid)
+                lo, hi = gallery_prism(rng, shape, n)
+                if winding == "cw":
+                    lo, hi = lo[::-1], hi[::-1]
+                k = rng.randint(0, n - 1)
+                lo, hi = lo[k:] + lo[:k], hi[k:] + hi[:k]
+                o = {"k": "genprism", "hh": rng.randint(2, 5), "lo": [list(p) for p in lo], "hi": [list(p) for p in hi]}
+                g.count("genprism")
+                g.count("gallery:%s:%s:%d" % (shape, winding, n))
+                t = {"m": rng.choice(SIGNED_PERMS) if rng.random() < 0.5 else IDENT, "den": 1,
+                     "t": [rng.randint(-1, 1) for _ in range(3)]}
+                b = {"k": "box", "h": [10, 10, 10]}
+                u0 = {"name": "u0", "boundary": b, "bz": "exterior", "bg": "u0.bg", "objs": [b, place(o, t)],
+                      "daughters": [], "materials": [{"label": "u0.m0", "obj": {"k": "ref", "i": 2}}]}
+                scenes.append(finish_scene(g, sid, seed, "gallery:" + shape, [u0], grid_n, [(t["t"], max(rb(o) + 1, 8))]))
+    return scenes
+
+
 # ------------------------------------------------------------------ oracle-decided family
 def _rotation(rng):
     """A general rotation matrix (axis-angle), orthonormal to rounding."""
